@@ -6,7 +6,9 @@
  *   - nothing leaks.
  *  -DOP=1 copy ctor, then the SOURCE is reassigned and destroyed   2 copy assignment a = b   3 self assignment a = a   4 move assignment a = move(b)
  *      5 a += a (self-referential)   6 a.replace(a, a)   7 a + b   8 substr of the whole string   9 replace without a match   10 trim with nothing to trim
- *      11 to_upper   12 left(n >= size)   13 right(n >= size)   14 clear   15 a += b   16 from_validated then mutate the source bytes */
+ *      11 to_upper   12 left(n >= size)   13 right(n >= size)   14 clear   15 a += b   16 from_validated then mutate the source bytes
+ *  -DFAULT=<k> (C19): the j-th allocation (j < k, symbolic) of the operation throws std::bad_alloc; afterwards std::bad_alloc is what escaped, every non-target string is
+ *      untouched, the target holds its previous value or is empty, everything can be destroyed and nothing leaks */
 #include "vp_harness.h"
 #include "k.h"
 typedef vp_string_t str_t;
@@ -23,6 +25,31 @@ static int same(const str_t *s, const uint8_t *sh, uint64_t n, const uint8_t *da
   return 1;
 }
 
+#ifdef FAULT
+/* C19: called right after the library call; tgt = 1 when a is the operation's target (it may hold its previous value or be empty), 0 when a is only read */
+static int fault_path(str_t *a, str_t *b, const uint8_t *sa, const uint8_t *sb, uint64_t an, uint64_t bn, const uint8_t *ad, const uint8_t *bd, int tgt) {
+  vp_fail_alloc_at = -1;
+  if (!vp_exc_pending) return 0;
+  ASSERT(vp_exc_kind == VP_EXC_BAD_ALLOC, "allocation failure surfaces as std::bad_alloc");
+  vp_clear_exception();
+  ASSERT(same(b, sb, bn, bd), "a string that is not the target is untouched by the failed operation");
+  if (!tgt) ASSERT(same(a, sa, an, ad), "the source is untouched by the failed operation");
+  else {
+    ASSERT(S_inv(&a->f0), "the target of the failed operation is a valid string (its data() is not a released pointer)");
+    ASSERT(a->f0.f1 == 0 || a->f0.f1 == an, "the target holds its previous value or an empty value");
+    for (uint64_t i = 0; i < MAXS; i++) if (i < a->f0.f1) ASSERT(a->f0.f0[i] == sa[i], "the target's previous value is intact");
+  }
+  vp_str_dtor(a); vp_str_dtor(b);
+  ASSERT(vp_live_blocks == 0, "no leak, nothing freed twice after the failed operation");
+  REACH("allocation-failure path");
+  REACH("end of harness");
+  return 1;
+}
+#define FAULT_CHECK(tgt) do { if (fault_path(&a, &b, sa, sb, an, bn, ad, bd, (tgt))) return 0; } while (0)
+#else
+#define FAULT_CHECK(tgt) ((void)0)
+#endif
+
 int vp_harness_main(void) {
   str_t a, b, r; uint8_t sa[RMAX + 1], sb[RMAX + 1]; int have_r = 0, a_alive = 1, b_alive = 1;
   S_mk(&a.f0, sa); S_mk(&b.f0, sb);
@@ -31,15 +58,18 @@ int vp_harness_main(void) {
   for (int i = 0; i < MAXS; i++) ASSUME(sa[i] < 0x80 && sb[i] < 0x80);
   const uint8_t *ad = a.f0.f0, *bd = b.f0.f0;
   uint8_t exp[RMAX + 1]; uint64_t el = 0; int check_r = 0;
+#ifdef FAULT
+  { uint32_t fk = vp_in_u32(); ASSUME(fk < FAULT); vp_fail_alloc_at = vp_alloc_count + (int)fk; }
+#endif
 #if OP == 1
-  vp_str_copy_ctor(&r, &a); have_r = 1;
+  vp_str_copy_ctor(&r, &a); FAULT_CHECK(0); have_r = 1;
   ASSERT(same(&a, sa, an, ad) && same(&b, sb, bn, bd), "copy construction leaves every existing string untouched");
   ASSERT(S_inv(&r.f0) && distinct_storage(&r, &a), "the copy owns its own storage");
   /* now reassign and destroy the source: the copy must be unaffected (deep copy) */
   vp_str_copy_assign(&a, &b); vp_str_dtor(&a); a_alive = 0;
   for (uint64_t i = 0; i < MAXS; i++) if (i < an) exp[i] = sa[i]; el = an; check_r = 1;
 #elif OP == 2
-  vp_str_copy_assign(&a, &b);
+  vp_str_copy_assign(&a, &b); FAULT_CHECK(1);
   ASSERT(same(&b, sb, bn, bd), "a = b leaves b untouched");
   ASSERT(S_inv(&a.f0) && a.f0.f1 == bn && distinct_storage(&a, &b), "a = b: a holds a deep copy");
   for (uint64_t i = 0; i < MAXS; i++) if (i < bn) ASSERT(a.f0.f0[i] == sb[i], "a = b: value");
@@ -58,32 +88,32 @@ int vp_harness_main(void) {
     vp_str_clear(&a);
     ASSERT(S_inv(&b.f0) && b.f0.f1 == bn2, "modifying the target does not change the moved-from string"); for (uint64_t i = 0; i < MAXS; i++) if (i < bn2) ASSERT(b.f0.f0[i] == keep[i], "moved-from bytes stable"); }
 #elif OP == 5
-  vp_append(&a, &a);
+  vp_append(&a, &a); FAULT_CHECK(1);
   ASSERT(!vp_exc_pending && S_inv(&a.f0) && a.f0.f1 == 2 * an, "s += s doubles the value");
   for (uint64_t i = 0; i < MAXS; i++) if (i < an) ASSERT(a.f0.f0[i] == sa[i] && a.f0.f0[an + i] == sa[i], "s += s: content");
   ASSERT(same(&b, sb, bn, bd), "s += s leaves other strings untouched");
 #elif OP == 6
-  vp_replace_str(&r, &a, &a, &a, 0); have_r = 1;
+  vp_replace_str(&r, &a, &a, &a, 0); FAULT_CHECK(0); have_r = 1;
   ASSERT(!vp_exc_pending && same(&a, sa, an, ad) && same(&b, sb, bn, bd), "s.replace(s, s) leaves s and every other string untouched");
   for (uint64_t i = 0; i < MAXS; i++) if (i < an) exp[i] = sa[i]; el = an; check_r = 1;
 #elif OP == 7
-  vp_concat(&r, &a, &b); have_r = 1;
+  vp_concat(&r, &a, &b); FAULT_CHECK(0); have_r = 1;
   ASSERT(!vp_exc_pending && same(&a, sa, an, ad) && same(&b, sb, bn, bd), "a + b leaves both operands untouched");
   for (uint64_t i = 0; i < MAXS; i++) { if (i < an) exp[i] = sa[i]; if (i < bn) exp[an + i] = sb[i]; } el = an + bn; check_r = 1;
 #elif OP == 8 || OP == 9 || OP == 10 || OP == 11 || OP == 12 || OP == 13
 #if OP == 8
-  vp_substr(&r, &a, 0, ~(uint64_t)0);
+  vp_substr(&r, &a, 0, ~(uint64_t)0); FAULT_CHECK(0);
 #elif OP == 9
   { for (int i = 0; i < MAXS; i++) ASSUME(sa[i] != 'q'); str_t f, t; uint8_t e1[RMAX + 1], e2[RMAX + 1]; S_mk_n(&f.f0, e1, 0, 1); S_mk_n(&t.f0, e2, 0, 2); ASSUME(e1[0] == 'q' && e2[0] < 0x80 && e2[1] < 0x80);
-    vp_replace_str(&r, &a, &f, &t, 0); S_destroy(&f.f0); S_destroy(&t.f0); }
+    vp_replace_str(&r, &a, &f, &t, 0); S_destroy(&f.f0); S_destroy(&t.f0); FAULT_CHECK(0); }
 #elif OP == 10
-  { for (int i = 0; i < MAXS; i++) ASSUME(sa[i] != ' ' && sa[i] != '\t' && sa[i] != '\r' && sa[i] != '\n'); vp_trim_dflt(&r, &a); }
+  { for (int i = 0; i < MAXS; i++) ASSUME(sa[i] != ' ' && sa[i] != '\t' && sa[i] != '\r' && sa[i] != '\n'); vp_trim_dflt(&r, &a); FAULT_CHECK(0); }
 #elif OP == 11
-  { for (int i = 0; i < MAXS; i++) ASSUME(!(sa[i] >= 'a' && sa[i] <= 'z')); vp_str_to_upper(&r, &a); }
+  { for (int i = 0; i < MAXS; i++) ASSUME(!(sa[i] >= 'a' && sa[i] <= 'z')); vp_str_to_upper(&r, &a); FAULT_CHECK(0); }
 #elif OP == 12
-  { uint64_t k = vp_in_u64(); ASSUME(k >= an); vp_left(&r, &a, k); }
+  { uint64_t k = vp_in_u64(); ASSUME(k >= an); vp_left(&r, &a, k); FAULT_CHECK(0); }
 #else
-  { uint64_t k = vp_in_u64(); ASSUME(k >= an); vp_right(&r, &a, k); }
+  { uint64_t k = vp_in_u64(); ASSUME(k >= an); vp_right(&r, &a, k); FAULT_CHECK(0); }
 #endif
   have_r = 1;
   ASSERT(!vp_exc_pending && same(&a, sa, an, ad) && same(&b, sb, bn, bd), "the operation leaves its source and every other string untouched");
@@ -92,7 +122,7 @@ int vp_harness_main(void) {
   vp_str_clear(&a);
   ASSERT(S_inv(&a.f0) && a.f0.f1 == 0 && same(&b, sb, bn, bd), "clear changes only its target");
 #elif OP == 15
-  vp_append(&a, &b);
+  vp_append(&a, &b); FAULT_CHECK(1);
   ASSERT(!vp_exc_pending && S_inv(&a.f0) && a.f0.f1 == an + bn && same(&b, sb, bn, bd), "a += b changes only a");
   for (uint64_t i = 0; i < MAXS; i++) { if (i < an) ASSERT(a.f0.f0[i] == sa[i], "a += b: prefix"); if (i < bn) ASSERT(a.f0.f0[an + i] == sb[i], "a += b: suffix"); }
 #elif OP == 16
